@@ -503,3 +503,110 @@ INT_MODELS = {
     r"^<[iu](8|16|32|64|128|size) as From<([iu](8|16|32|64|128|size)|bool)>>::from$": m_int_from,
     r"^<[iu](8|16|32|64|128|size) as Into<[iu](8|16|32|64|128|size)>>::into$": m_int_from,
 }
+
+
+# ----------------------------------------------------------------------------- Vec<u8> / BufMut byte sink
+def sink_items(ref):
+    s = deref(ref)
+    if not isinstance(s, Seq):
+        raise Unsupported(f"byte sink expected, got {s}")
+    return s.items
+
+
+def be_bytes(it, v, nbytes):
+    out = []
+    for k in reversed(range(nbytes)):
+        out.append(Int(z3.Extract(8 * k + 7, 8 * k, v.t), 8, False))
+    return out
+
+
+def m_put_int(nbytes):
+    def f(it, p, callee, args):
+        sink, v = args
+        if v.w != 8 * nbytes:
+            v = Int(it.be.resize(v.t, v.w, 8 * nbytes, v.signed), 8 * nbytes, v.signed)
+        sink_items(sink).extend(be_bytes(it, v, nbytes))
+        return Unit()
+    return f
+
+
+def m_put_slice(it, p, callee, args):
+    sink, sl = args
+    if isinstance(sl, Ref):
+        tgt = deref(sl)
+        items = list(elems(tgt))
+    else:
+        items = slice_items(sl)
+    sink_items(sink).extend(items)
+    return Unit()
+
+
+def m_vec_from_elem(it, p, callee, args):
+    v, n = args
+    return Seq([mir.copy_value(v) for _ in range(_cint(n))])
+
+
+def m_vec_index_mut_usize(it, p, callee, args):
+    vec, idx = args
+    k = _cint(idx)
+    if k >= len(sink_items(vec)):
+        raise mir.Panic(f"index {k} out of bounds")
+    return Ref(vec.cell, vec.path + (("index_const", k),))
+
+
+def m_vec_len(it, p, callee, args):
+    return it.const_int(len(sink_items(args[0])), "usize")
+
+
+def m_to_be_bytes(it, p, callee, args):
+    v = args[0]
+    return Tup(be_bytes(it, v, v.w // 8), "array")
+
+
+def m_try_into_int(it, p, callee, args):
+    m = re.match(r"<(\w+) as TryInto<(\w+)>>::try_into$", callee) or re.match(r"<(\w+) as TryFrom<(\w+)>>::try_from$", callee)
+    src, dst = (m.group(1), m.group(2)) if "TryInto" in callee else (m.group(2), m.group(1))
+    v = args[0]
+    w, s = mir.INT_TYPES[dst]
+    be = it.be
+    # fits iff the value is within the destination range (source is unsigned usize / signed handled generically)
+    if v.signed:
+        lo = be.const(-(1 << (w - 1)) if s else 0, v.w)
+        hi = be.const((1 << (w - 1)) - 1 if s else (1 << w) - 1, v.w) if w < v.w or s else None
+        fits = be.sle(lo, v.t, v.w) if hi is None else z3.And(be.sle(lo, v.t, v.w), be.sle(v.t, hi, v.w))
+    else:
+        maxv = (1 << (w - 1)) - 1 if s else (1 << w) - 1
+        fits = z3.BoolVal(True) if maxv >= (1 << v.w) - 1 else be.ule(v.t, be.const(maxv, v.w), v.w)
+    d = be.ite(fits, be.const(0, 64), be.const(1, 64))
+    return Enum(Int(d, 64, True), {0: Tup([Int(be.resize(v.t, v.w, w, v.signed), w, s)]), 1: Tup([Opaque("TryFromIntError")])}, RESULT, "Result")
+
+
+def m_str_as_bytes(it, p, callee, args):
+    """&str modelled here as a byte Slice already (request texts are opaque bytes)"""
+    return args[0]
+
+
+def m_option_is_some_generic(it, p, callee, args):
+    o = deref(args[0]) if isinstance(args[0], Ref) else args[0]
+    return Bool(it.be.eq(o.discr.t, it.be.const(1, o.discr.w), o.discr.w))
+
+
+BUFMUT_MODELS = {
+    r"BufMut>::put_u8$": m_put_int(1), r"BufMut>::put_i8$": m_put_int(1),
+    r"BufMut>::put_u16$": m_put_int(2), r"BufMut>::put_i16$": m_put_int(2),
+    r"BufMut>::put_u32$": m_put_int(4), r"BufMut>::put_i32$": m_put_int(4),
+    r"BufMut>::put_u64$": m_put_int(8), r"BufMut>::put_i64$": m_put_int(8),
+    r"BufMut>::put_slice$": m_put_slice, r"BufMut>::put::<&\[u8\]>$": m_put_slice,
+    r"^Vec::<u8>::extend_from_slice$": m_put_slice,
+    r"^std::vec::from_elem::<u8>$": m_vec_from_elem,
+    r"^<Vec<u8> as (?:std::ops::)?IndexMut<usize>>::index_mut$": m_vec_index_mut_usize,
+    r"^<Vec<u8> as (?:std::ops::)?IndexMut<(?:std::ops::)?Range<usize>>>::index_mut$": m_array_index_range,
+    r"^<Vec<u8> as (?:std::ops::)?Index<(?:std::ops::)?Range\w*<usize>>>::index$": m_array_index_range,
+    r"^Vec::<u8>::len$": m_vec_len,
+    r"core::num::<impl [iu]\d+>::to_be_bytes$": m_to_be_bytes,
+    r"^<usize as TryInto<[iu]\d+>>::try_into$": m_try_into_int,
+    r"^<std::result::Result<.*> as Try>::branch$": m_result_branch,
+    r" as FromResidual<std::result::Result<(?:std::convert::)?Infallible, .*>>>::from_residual$": m_result_from_residual,
+    r"core::str::<impl str>::as_bytes$": m_str_as_bytes,
+    r"^Option::<.*>::is_some$": m_option_is_some_generic,
+}
